@@ -1562,11 +1562,21 @@ class MacroFunction(Macro):
                         last = []
                     idx += 1
                     nexttok = self.replacement[idx]
-                    try:
-                        argidx = self.args.index(nexttok.token)
-                        nexttok = input_args[argidx][0]  # Unexpanded arg
-                    except ValueError:
-                        nexttok = [nexttok]
+                    if (
+                        nexttok.token == "#"
+                        and idx + 1 < len(self.replacement)
+                        and self.replacement[idx + 1].token in self.args
+                    ):
+                        # The right-hand operand is a stringified argument.
+                        idx += 1
+                        argidx = self.args.index(self.replacement[idx].token)
+                        nexttok = [Lexer.stringify(input_args[argidx][0])]
+                    else:
+                        try:
+                            argidx = self.args.index(nexttok.token)
+                            nexttok = input_args[argidx][0]  # Unexpanded arg
+                        except ValueError:
+                            nexttok = [nexttok]
                     if len(last) > 0 and len(nexttok) == 0:
                         # Pasting with an empty argument yields the other
                         # operand unchanged.
